@@ -104,11 +104,12 @@ CLAIMED["C05"] = dict(
           "to k; recorded proteins belong to that group; razor reduces to one of the peptide's own proteins; a peptide supports "
           "at most one group either way; best-PEP score = f(min PEP) for antitone f and never decreases with more evidence; "
           "multiplied-PEP summands are one per distinct peptide, its lowest PEP; groups without evidence are not ranked. "
-          "The razor arg-max order (count, best PEP, md5, name) is tied by correspondence only. Correspondence of "
+          "The razor protein is a maximum of the lexicographic key (count, -best PEP, md5, name): transitivity of the key order, fold "
+          "invariant, hence no protein of the peptide has more observed peptides. Correspondence of "
           "collect_peptide_scores_per_protein (discard/razor/with_shared, strict/suppressed, stale index), "
           "BestPEPScore.calculate_score (numpy-tabulated f) and MultPEPScore (terms checked in Coq, float fold in Python)."),
-    note=COMMON_NOTE + "numpy log10 tabulated (same primitive); md5 uninterpreted/tabulated; MultPEP divisor search not modelled; "
-         "maximality of the razor choice not proved (correspondence only). Axioms: none.",
+    note=COMMON_NOTE + "numpy log10 tabulated (same primitive); md5 uninterpreted/tabulated; MultPEP divisor search not modelled. "
+         "Axioms: none.",
     technique="Coq proof over fold-based collection + order lemmas; in-Coq differential correspondence with tabulated oracles",
     design="5/C05")
 
